@@ -72,11 +72,10 @@ def evaluate(ck, c, stream, want_native=True):
     # the theorem's instance on this case, evaluated on the extracted definitions: names_apart and the reference is
     # defined on a test  =>  model text == reference text, model passes iff reference passes
     if c.m_apart and c.m_reft is not None and c.m_interp['cls'] == 'done':
-        mt = {t[0]: t for t in c.m_interp['tests']}
-        for (n, cls, out) in c.m_reft:
-            if n not in mt or cls not in ('ok', 'assert'):
+        # block by block, in source order (a function may have several blocks)
+        for (n, cls, out), (mn_, mp, mnf, mtr, mout) in zip(c.m_reft, c.m_interp['tests']):
+            if mn_ != n or cls not in ('ok', 'assert'):
                 continue
-            _, mp, mnf, mtr, mout = mt[n]
             if cls == 'ok' and (mout != out or not mp):
                 res['theorem'].append('interp_correct instance fails on test %s: reference passes printing %r, model %s printing %r' % (progen.fname(n), out[:120], 'passes' if mp else 'fails', mout[:120]))
             if cls == 'assert' and (mp or not mout.startswith(out)):
@@ -160,7 +159,7 @@ def run(ck):
     for c in wit:
         record(ck, c, evaluate(ck, c, 'witness'), 'witness')
     # corpus shared with C06: assertions whose truth depends on the loop iteration (counts and verdicts must match run time)
-    corp = [S.hand_case(k, p, sh) for k, (p, sh) in sorted(W.CORPUS.items())]
+    corp = [W.corpus_case(S, k) for k in sorted(W.CORPUS)]
     S.run_models(nv3, nvl, corp)
     S.run_real(b, corp, 'c03c')
     for c in corp:
@@ -169,8 +168,9 @@ def run(ck):
     cfg = S.stream_cfg(openk)
     n = 400 if ck.thorough else 36
     modes = ['none', 'none', 'none', 'many', 'none', 'first', 'none', 'loop']
-    cases = S.build_cases(ck, nvl, [ck.seed * 100003 + i for i in range(n)], cfg, modes, 's%d' % ck.seed, iter_prob=(0.6, 0.2))
+    cases = S.build_cases(ck, nvl, [ck.seed * 100003 + i for i in range(n)], cfg, modes, 's%d' % ck.seed, iter_prob=(0.6, 0.2), multi_prob=0.35, import_prob=0.2)
     S.count_iter(ck, cases)
+    S.count_layout(ck, cases)
     S.run_models(nv3, nvl, cases)
     S.run_real(b, cases, 'c03m')
     # block-local shadowing may pick a top-level constant's name: such a program is outside names_apart (dynamic scoping is an
@@ -204,7 +204,7 @@ def run(ck):
                       'statements, run as native binary and on the reference semantics; non-trivial = a shadow block prints or fails; '
                       'distinct = distinct source text.  Streams: finding witnesses, progen stream (open-finding triggers excluded), clash stream '
                       '(evaluator deviates; model must predict it).')
-    for k in ('dropped', 'status', 'clash', 'clash_features_diverging', 'native_unavailable', 'modes', 'features', 'apart', 'iteration_dependent'):
+    for k in ('dropped', 'status', 'clash', 'clash_features_diverging', 'native_unavailable', 'modes', 'features', 'apart', 'iteration_dependent', 'block_layout'):
         ck.extra[k] = dict(ck.extra.get(k, {}))
     ck.extra['generator_config'] = {k: v for k, v in cfg.__dict__.items()}
     ck.trusted += ['Lang/Ref.v as a faithful transcription of docs/SPECIFICATION.md sections 4-8 (reviewed by hand)',
@@ -221,6 +221,7 @@ def replay(ck, d):
     c = S.Case()
     c.id, c.mode, c.seed, c.tag, c.feat, c.picked = d.get('case', 'replay'), d.get('mode', '?'), 0, 'replay', {}, []
     c.s_src, c.a_src, c.sprog, c.a_sexp, c.order_names = d['source'], d['a_source'], d['sprog'], d['a_sexp'], d['order']
+    c.mod_src = d.get('module_source')
     S.run_models(nv3, nvl, [c])
     S.run_real(b, [c], 'c03r')
     r = evaluate(ck, c, 'gen')
